@@ -43,9 +43,13 @@ type c13Def struct {
 	N      int    `json:"n"`      // cycle repetitions (-1 = unbounded)
 	Start  bool   `json:"start"`  // cycle with explicit start (base + 5 intervals)
 	End    int    `json:"end"`    // cycle end bound in intervals after base (0 = none)
+	Far    bool   `json:"far,omitempty"` // cycle with an end bound in the year 9999 (beyond what fits into 64-bit nanoseconds)
 }
 
 func (d c13Def) String() string {
+	if d.Far {
+		return fmt.Sprintf("%s-n%d-start%v-endfar", d.Kind, d.N, d.Start)
+	}
 	return fmt.Sprintf("%s-n%d-start%v-end%d", d.Kind, d.N, d.Start, d.End)
 }
 
@@ -67,13 +71,17 @@ const c13Interval = time.Minute
 
 var c13Base = time.Date(2030, 1, 1, 0, 0, 0, 0, time.UTC)
 
+// an end bound "for ever": its distance from the clock does not fit into a time.Duration and its UnixNano wraps
+var c13FarEnd = time.Date(9999, 12, 31, 23, 59, 59, 0, time.UTC)
+
 func c13Defs() []c13Def {
 	ds := []c13Def{{Kind: "date"}, {Kind: "duration"}}
 	for _, n := range []int{0, 1, 2, 3, -1} {
 		ds = append(ds, c13Def{Kind: "cycle", N: n})
 	}
 	ds = append(ds, c13Def{Kind: "cycle", N: 3, Start: true}, c13Def{Kind: "cycle", N: -1, Start: true},
-		c13Def{Kind: "cycle", N: -1, End: 3}, c13Def{Kind: "cycle", N: 3, End: 2}, c13Def{Kind: "cycle", N: 2, Start: true, End: 8})
+		c13Def{Kind: "cycle", N: -1, End: 3}, c13Def{Kind: "cycle", N: 3, End: 2}, c13Def{Kind: "cycle", N: 2, Start: true, End: 8},
+		c13Def{Kind: "cycle", N: 3, Far: true})
 	return ds
 }
 
@@ -108,7 +116,7 @@ func c13Cases(tier string, seed uint64) []fw.Case {
 		c.Name = fmt.Sprintf("timer/%s/short", d)
 		cs = append(cs, fw.MkCase("timer", &c))
 	}
-	for _, d := range []c13Def{{Kind: "date"}, {Kind: "duration"}, {Kind: "cycle", N: 3}, {Kind: "cycle", N: -1}} {
+	for _, d := range []c13Def{{Kind: "date"}, {Kind: "duration"}, {Kind: "cycle", N: 3}, {Kind: "cycle", N: -1}, {Kind: "cycle", N: 3, Far: true}} {
 		for a := 0; a < mvCount; a++ {
 			c := c13Case{Level: "process", Def: d, Prefix: []int{a}, MaxLen: 3, Seed: seed}
 			c.Name = fmt.Sprintf("process/%s/%s", d, mvNames[a])
@@ -146,6 +154,8 @@ func (d c13Def) text() (tag, val string) {
 		r = fmt.Sprintf("R%d", d.N)
 	}
 	switch {
+	case d.Far:
+		return "timeCycle", fmt.Sprintf("%s/PT1M/%s", r, c13FarEnd.Format(time.RFC3339))
 	case d.Start && d.End > 0:
 		// start/end form: the interval is end-start
 		return "timeCycle", fmt.Sprintf("%s/%s/%s", r, c13Base.Add(5*c13Interval).Format(time.RFC3339), c13Base.Add(time.Duration(5+d.End/8)*c13Interval).Add(c13Interval).Format(time.RFC3339))
@@ -212,6 +222,9 @@ func newC13Ref(d c13Def, now time.Time) *c13Ref {
 			r.interval = e.Sub(r.start)
 		} else if d.End > 0 {
 			e := c13Base.Add(time.Duration(d.End) * c13Interval)
+			r.end = &e
+		} else if d.Far {
+			e := c13FarEnd
 			r.end = &e
 		}
 		r.due = r.start.Add(r.interval)
